@@ -14,6 +14,11 @@ use crate::c08::{build, WorldDef};
 
 const SEC: u64 = 1_000_000_000;
 
+/// 2^log seconds in ns
+fn interval_ns(log: i8) -> u64 {
+    (SEC as f64 * 2f64.powi(log as i32)) as u64
+}
+
 #[derive(Clone, Copy, PartialEq, Debug)]
 pub enum Mode {
     Silence,
@@ -43,8 +48,10 @@ fn continue_timed(run: &mut Run<'_>, mode: Mode, horizon: u64) -> (Vec<Emission>
     let mut now = 0u64;
     let mut emissions = vec![];
     let mut states = vec![(0u64, run.states())];
-    let bmca_every = SEC; // announce interval 2^0 s in these worlds
-    let mut next_bmca = SEC / 2;
+    let ann_iv = interval_ns(run.cfg.node.ports[0].log_announce);
+    let sync_iv = interval_ns(run.cfg.node.ports[0].log_sync);
+    let bmca_every = ann_iv;
+    let mut next_bmca = ann_iv / 2;
     // the better master (peer 0) on port 0: Announce every interval, two-step Sync + Follow_Up
     let mut next_ann = SEC / 10;
     let mut next_sync = SEC / 5;
@@ -85,10 +92,10 @@ fn continue_timed(run: &mut Run<'_>, mode: Mode, horizon: u64) -> (Vec<Emission>
         let ev = match class {
             0 => {
                 if a == 0 {
-                    next_ann += SEC;
+                    next_ann += ann_iv;
                     Ev::Ann(0, 0)
                 } else {
-                    next_sync += SEC;
+                    next_sync += sync_iv;
                     // Follow_Up follows 10 ms later
                     let s = run.peers[0].sync_seq;
                     pending_frames.push((now + SEC / 100, 0, run.peers[0].follow_up(s, Ts::from_ns(run.cfg.rx_ns as u128 - 1000), 0), false));
@@ -161,6 +168,11 @@ fn v(sig: String, msg: String) -> Violation {
 pub struct LiveSt {
     /// (port, timer) dependencies that were already unmet before the step
     unmet_before: Vec<(usize, usize)>,
+    /// timers armed before the step
+    armed_before: Vec<[bool; 5]>,
+    /// per port, while it is faulty: was the announce receipt timer armed when the fault began,
+    /// and has it expired since (history class of a recovery; part of the state key)
+    fault: Vec<Option<(bool, bool)>>,
 }
 
 fn needs(state: PS) -> Vec<(Timer, &'static str)> {
@@ -180,6 +192,8 @@ impl Monitor for LiveMon {
 
     fn pre(&self, st: &mut LiveSt, run: &mut Run<'_>, _ev: &Ev, _judged: bool) {
         st.unmet_before.clear();
+        st.armed_before = (0..run.n_ports()).map(|p| run.hosts[p].armed).collect();
+        st.fault.resize(run.n_ports(), None);
         let states = run.states();
         for p in 0..run.n_ports() {
             for (t, _) in needs(states[p]) {
@@ -190,10 +204,52 @@ impl Monitor for LiveMon {
         }
     }
 
+    fn key(&self, st: &LiveSt) -> String {
+        format!("{:?}", st.fault)
+    }
+
     fn post(&self, st: &mut LiveSt, run: &mut Run<'_>, s: &Step, report: Option<&mut Vec<Violation>>) {
+        // history class of the faults in progress (kept on every step, judged or not)
+        st.fault.resize(run.n_ports(), None);
+        let mut leaving: Vec<Option<(bool, bool)>> = vec![None; run.n_ports()];
+        for p in 0..run.n_ports() {
+            let (b, a) = (matches!(s.before[p], PS::Faulty), matches!(s.after[p], PS::Faulty));
+            if !b && a {
+                st.fault[p] = Some((st.armed_before.get(p).map(|x| x[Timer::Receipt as usize]).unwrap_or(false), false));
+            }
+            if b && matches!(s.ev, Ev::T(q, Timer::Receipt) if q == p) {
+                if let Some(f) = &mut st.fault[p] {
+                    f.1 = true;
+                }
+            }
+            if b && !a {
+                leaving[p] = st.fault[p].take();
+            }
+        }
         let Some(out) = report else { return };
         if s.panic.is_some() {
             return;
+        }
+        // every timer is requested with the duration its configuration prescribes
+        for (p, acts) in &s.acts {
+            let ps = &run.cfg.node.ports[*p];
+            let (a, sy, d) = (interval_ns(ps.log_announce) as u128, interval_ns(ps.log_sync) as u128, interval_ns(ps.log_delay) as u128);
+            let to = ps.receipt_timeout as u128;
+            for act in acts {
+                let Some(dur) = act.duration else { continue };
+                let ns = dur.as_nanos();
+                let (ok, want) = match act.kind {
+                    // zero when the port has just become master, the interval when the timer re-arms itself
+                    "ResetAnnounce" => (if matches!(s.ev, Ev::T(q, Timer::Announce) if q == *p) { ns == a } else { ns == 0 || ns == a }, format!("{a} ns (or 0 on entering master)")),
+                    "ResetSync" => (if matches!(s.ev, Ev::T(q, Timer::Sync) if q == *p) { ns == sy } else { ns == 0 || ns == sy }, format!("{sy} ns (or 0 on entering master)")),
+                    "ResetReceipt" => (ns >= to * a && ns <= 2 * to * a, format!("{}..{} ns", to * a, 2 * to * a)),
+                    "ResetDelay" => (ns <= 2 * d, format!("0..{} ns", 2 * d)),
+                    _ => (true, String::new()),
+                };
+                if !ok {
+                    out.push(v(format!("timer-duration:{}", act.kind), format!("port {} asked for {} after {} ns, configuration says {want} (after {:?})", p + 1, act.kind, ns, s.ev)));
+                }
+            }
         }
         // no port waits on a timer that is not armed
         for p in 0..run.n_ports() {
@@ -203,8 +259,15 @@ impl Monitor for LiveMon {
                 // reported at the step that creates the situation (a timer that fires while armed
                         // and is not re-armed, or a state change that does not arm it)
                 if !armed[t as usize] && !(st.unmet_before.contains(&(p, t as usize)) && s.before[p] == s.after[p]) {
+                    // a recovery from a peer-delay fault is classified by the history of the fault
+                    let class = match (t, leaving[p]) {
+                        (Timer::Receipt, Some((false, false))) => "", // never armed: the port was master when the fault began
+                        (Timer::Receipt, Some((_, true))) => ":receipt-timer-expired-while-faulty",
+                        (Timer::Receipt, Some((true, false))) => ":receipt-timer-armed-at-fault-and-lost",
+                        _ => "",
+                    };
                     out.push(v(
-                        format!("{}-port-without-{}-timer:{}-by-{}", state_name(s.after[p]).to_lowercase(), name.replace(' ', "-"), state_name(s.before[p]).to_lowercase(), crate::c03::ev_kind(&s.ev)),
+                        format!("{}-port-without-{}-timer:{}-by-{}{}", state_name(s.after[p]).to_lowercase(), name.replace(' ', "-"), state_name(s.before[p]).to_lowercase(), crate::c03::ev_kind(&s.ev), class),
                         format!("port {} is {} after {:?} but its {} timer is not armed (armed: {:?})", p + 1, state_name(s.after[p]), s.ev, name, armed),
                     ));
                 }
@@ -218,8 +281,11 @@ impl Monitor for LiveMon {
         let slave_only = run.node.inst.default_ds().slave_only;
         let timeout = run.cfg.node.ports[0].receipt_timeout as u64;
         // bound: receipt timeout (up to 2 x timeout intervals) + 5 intervals
-        let t1 = (2 * timeout + 5) * SEC;
-        let horizon = t1 + 9 * SEC;
+        let ann_iv = interval_ns(run.cfg.node.ports[0].log_announce);
+        let sync_iv = interval_ns(run.cfg.node.ports[0].log_sync);
+        let delay_iv = interval_ns(run.cfg.node.ports[0].log_delay);
+        let t1 = (2 * timeout + 5) * ann_iv;
+        let horizon = t1 + 9 * ann_iv;
         let (em, states, panicked) = continue_timed(run, self.mode, horizon);
         if panicked {
             return; // C03's
@@ -247,15 +313,15 @@ impl Monitor for LiveMon {
                         ));
                         continue;
                     }
-                    for (ty, name) in [(rc::ANNOUNCE, "Announce"), (rc::SYNC, "Sync")] {
+                    for (ty, name, iv) in [(rc::ANNOUNCE, "Announce", ann_iv), (rc::SYNC, "Sync", sync_iv)] {
                         let times: Vec<u64> = em.iter().filter(|e| e.1 == p && e.2 == ty && e.0 >= t1).map(|e| e.0).collect();
                         if times.len() < 7 {
                             out.push(v(format!("silence:master-stops-sending-{name}"), format!("port {} sent {} {name} messages in the {} s after becoming master", p + 1, times.len(), (horizon - t1) / SEC)));
                             continue;
                         }
                         for w in times.windows(2) {
-                            if w[1] - w[0] != SEC {
-                                out.push(v(format!("silence:{name}-interval"), format!("port {} sent {name} at {} and {} ns (configured interval 1 s)", p + 1, w[0], w[1])));
+                            if w[1] - w[0] != iv {
+                                out.push(v(format!("silence:{name}-interval"), format!("port {} sent {name} at {} and {} ns (configured interval {} ns)", p + 1, w[0], w[1], iv)));
                                 break;
                             }
                         }
@@ -267,7 +333,7 @@ impl Monitor for LiveMon {
                 if matches!(start[p], PS::Faulty) || run.cfg.node.ports[p].master_only {
                     return;
                 }
-                let at = state_at(p, 5 * SEC + SEC / 2);
+                let at = state_at(p, 5 * ann_iv + ann_iv / 2);
                 // an instance with clockClass 1..127 never becomes slave: it goes passive (IEEE 1588 figure 33)
                 let class = run.node.inst.default_ds().clock_quality.clock_class;
                 if (1..=127).contains(&class) {
@@ -287,13 +353,13 @@ impl Monitor for LiveMon {
                     return;
                 }
                 let ty = if run.cfg.node.ports[p].p2p { rc::PDELAY_REQ } else { rc::DELAY_REQ };
-                let times: Vec<u64> = em.iter().filter(|e| e.1 == p && e.2 == ty && e.0 >= 6 * SEC).map(|e| e.0).collect();
+                let times: Vec<u64> = em.iter().filter(|e| e.1 == p && e.2 == ty && e.0 >= 6 * ann_iv).map(|e| e.0).collect();
                 if times.len() < 3 {
-                    out.push(v("better-master:no-delay-requests".into(), format!("port 1 is slave but sent {} delay requests in {} s", times.len(), (horizon - 6 * SEC) / SEC)));
+                    out.push(v("better-master:no-delay-requests".into(), format!("port 1 is slave but sent {} delay requests in {} s", times.len(), (horizon - 6 * ann_iv) / SEC)));
                 } else {
                     for w in times.windows(2) {
-                        if w[1] - w[0] > 2 * SEC {
-                            out.push(v("better-master:delay-request-gap".into(), format!("delay requests at {} and {} ns (configured interval 1 s)", w[0], w[1])));
+                        if w[1] - w[0] > 2 * delay_iv {
+                            out.push(v("better-master:delay-request-gap".into(), format!("delay requests at {} and {} ns (configured interval {} ns)", w[0], w[1], delay_iv)));
                             break;
                         }
                     }
@@ -331,6 +397,9 @@ fn defs() -> Vec<WorldDef> {
             rich: false,
             depth: (4, 6),
         },
+        // announce 2 s, sync 0.25 s, delay requests 0.5 s (set in systems())
+        WorldDef { name: "1p-e2e-intervals", ports: vec![(false, false)], slave_only: false, seed: vec![], obedient: true, rich: true, depth: (4, 6) },
+        WorldDef { name: "1p-e2e-intervals-slave-seed", ports: vec![(false, false)], slave_only: false, seed: slave_seed.clone(), obedient: true, rich: true, depth: (3, 5) },
         WorldDef { name: "1p-e2e-slaveonly", ports: vec![(false, false)], slave_only: true, seed: vec![], obedient: true, rich: false, depth: (4, 6) },
         WorldDef { name: "2p-e2e", ports: vec![(false, false), (false, false)], slave_only: false, seed: vec![], obedient: true, rich: false, depth: (4, 5) },
         WorldDef { name: "2p-bc-seed", ports: vec![(false, false), (true, false)], slave_only: false, seed: vec![Ev::Ann(0, 0), Ev::Ann(0, 0), Ev::T(1, Timer::Receipt), Ev::Bmca], obedient: true, rich: false, depth: (3, 4) },
@@ -341,6 +410,13 @@ pub fn systems() -> Vec<(WorldSys<'static, LiveMon>, (usize, usize))> {
     let mut all = vec![];
     for (mon, tag) in [(&SILENCE, "silence"), (&BETTER, "better-master")] {
         for (mut s, d) in build("C12", mon, defs(), false) {
+            if s.name.contains("intervals") {
+                for p in &mut s.cfg.node.ports {
+                    p.log_announce = 1;
+                    p.log_sync = -2;
+                    p.log_delay = -1;
+                }
+            }
             s.name = format!("{}+{}", s.name, tag);
             all.push((s, d));
         }
@@ -354,7 +430,7 @@ pub fn run(tier: Tier) -> i32 {
     let depths: std::collections::HashMap<String, (usize, usize)> = built.iter().map(|(s, d)| (s.name.clone(), *d)).collect();
     let systems: Vec<_> = built.into_iter().map(|(s, _)| s).collect();
     explore_all(&mut rep, &systems, |s| tier.pick(depths[&s.name].0, depths[&s.name].1), tier.pick(10.0, 300.0));
-    rep.assume("continuations are timed discrete-event runs: timers fire exactly at now + the duration they were armed with; a transmit timestamp is reported right after every event send (as statime-linux does); BMCA runs every announce interval");
+    rep.assume("continuations are timed discrete-event runs: timers fire exactly at now + the duration they were armed with; a transmit timestamp is reported right after every event send (as statime-linux does); BMCA runs every announce interval; every requested timer duration is compared with the configured intervals (announce/sync exact, receipt within [1,2] x timeout x announce interval, delay within [0,2] x the delay interval)");
     rep.assume("bounds: master within 2 x announce_receipt_timeout + 5 intervals of silence; slave within 5.5 intervals of a steady better master; delay request gaps <= 2 x the configured interval");
     rep.finish()
 }
